@@ -22,7 +22,8 @@ ty:          "int" | ["state", a]
 `eff` is computed HERE (not by calling snaxc.inference.helpers.has_accfg_effects): attribute
 `accfg.effects` present -> it is not <none>; absent -> the op is func.call / llvm.call.
 `pure` = xdsl.traits.is_side_effect_free(op).
-Anything with regions other than scf.for / scf.if raises Unsupported.
+Anything with regions other than scf.for / scf.if raises Unsupported (except the one-operand, result-free
+`test.op` with a single region used by notes/probe_c07_region_op.mlir, read as a conditional execution).
 """
 from __future__ import annotations
 
@@ -156,6 +157,12 @@ def convert_op(op, names: Names) -> dict:
             el, ely = [], []
         return {"op": "if", "cond": V(op.cond), "results": [[V(r), _ty(r.type, names)] for r in op.results],
                 "then": th, "then_y": thy, "else": el, "else_y": ely}
+    if (op.name == "test.op" and len(op.regions) == 1 and len(op.regions[0].blocks) == 1 and not op.results
+            and len(op.operands) == 1 and "accfg.effects" not in op.attributes):
+        # an unknown region op (the `elif op.regions` branch of state tracing): read as "executes its region iff
+        # its i1 operand is true" - used by notes/probe_c07_region_op.mlir only; generators never emit it
+        th, _ = convert_block(op.regions[0].blocks[0], names)
+        return {"op": "if", "cond": V(op.operands[0]), "results": [], "then": th, "then_y": [], "else": [], "else_y": []}
     if op.regions:
         raise Unsupported(f"op with regions: {op.name}")
     eff = _effects(op)
